@@ -14,7 +14,11 @@
 (***************************************************************************)
 EXTENDS Naturals, Sequences, FiniteSets, SequencesExt, TLC
 
-Letters == {"a", "n", "Z"}           \* "n" doubles as escape letter (\n)
+Letters == {"a", "n", "Z", "i", "f", "t", "h", "e", "l", "s", "r", "w", "c"}    \* "n" doubles as escape letter (\n)
+\* words the Nix grammar reserves: as attribute names in the FILE they must be quoted (a path segment may be bare)
+Keywords == { <<"i", "f">>, <<"t", "h", "e", "n">>, <<"e", "l", "s", "e">>, <<"a", "s", "s", "e", "r", "t">>,
+              <<"w", "i", "t", "h">>, <<"l", "e", "t">>, <<"i", "n">>, <<"r", "e", "c">>,
+              <<"i", "n", "h", "e", "r", "i", "t">> }
 Digits == {"0"}
 IdentStart(c) == c \in Letters \cup {"_"}
 IdentRest(c) == c \in Letters \cup Digits \cup {"_", "'"}
@@ -47,7 +51,7 @@ EscAttr(s) ==
     ELSE IF s[1] = "$" /\ Len(s) > 1 /\ s[2] = "{" THEN <<"\\", "$", "{">> \o EscAttr(Tail(Tail(s)))
     ELSE <<s[1]>> \o EscAttr(Tail(s))
 \* reference spelling in the file (any spelling that decodes to the name is acceptable: see C12_RoundTrip)
-AttrText(name) == IF IsIdent(name) THEN name ELSE <<"\"">> \o EscAttr(name) \o <<"\"">>
+AttrText(name) == IF IsIdent(name) /\ name \notin Keywords THEN name ELSE <<"\"">> \o EscAttr(name) \o <<"\"">>
 
 -----------------------------------------------------------------------------
 (* What Nix reads.                                                          *)
